@@ -3,6 +3,8 @@
 # Confirms the demonstration (fails with the change, passes without), applies the change to /repo,
 # runs the named checks, and ALWAYS restores /repo afterwards.
 set -u
+# evidence/ and replays/ of runs against a changed tree must not replace the committed ones
+export VERIF_OUT=${VERIF_OUT:-/tmp/mutant-eval-out}
 DIR=$1; shift
 cd /verif
 if [ -n "$(git -C /repo status --porcelain --untracked-files=no)" ]; then echo "/repo is dirty, refusing"; exit 2; fi
